@@ -496,9 +496,29 @@ def _gen_values(rng, spec):
 def _gen_plan(rng, spec):
     """an admissible steady plan (or none)"""
     spec["plan"] = None
-    if spec["linear"] or rng.random() < 0.5:
+    if spec["linear"]:
         return
     plan = {"exogenize": [], "endogenize": [], "fix_level": [], "fix_change": []}
+    # growth mode: the LEVEL of a unit-root driver is not pinned down by the equations and is fixed by the plan (no
+    # fix_change: its steady CHANGE still has to be solved for); mostly solved block by block on explicit request, where
+    # the driver's own equation is a block whose only unknown is that change; the stored change is missing or off
+    if spec["trend"] and not spec["flat"] and rng.random() < 0.4:
+        owns = list(spec["trend"]) if rng.random() < 0.5 else [rng.choice(spec["trend"])]
+        for own in owns:
+            for i in range(spec["nv"]):
+                if rng.random() < 0.6:
+                    ch = None
+                else:
+                    ch = _r(rng, 0.97, 1.05) if own in spec["logs"] else _r(rng, -0.3, 0.3)
+                spec["start"][own][i] = [_r(rng, 0.5, 3.0), ch]
+            plan["fix_level"].append(own)
+        r = rng.random()
+        spec["split"] = True if r < 0.65 else (False if r < 0.85 else None)
+        spec["plan"] = plan
+        spec["plan_kind"] = "fix_level_driver"
+        return
+    if rng.random() < 0.45:
+        return
     trendy = set(spec["trend"]) | set(spec["followers"])
     stationary = [e["own"] for e in spec["eqs"] if e["own"] not in trendy and e["form"] in
                   ("lin", "exp", "prod", "ratio", "geo", "loglin", "sum")]
